@@ -236,11 +236,12 @@ def parse_raw_http(data: bytes) -> Union[HttpRequest, HttpResponse]:
     method, uri, _version = parts
 
     # sanitize uri bytes for `urlparse()` to avoid possible decode errors
-    uri = uri.decode("ascii", errors="ignore").encode()
+    uri = uri.decode("ascii", errors="ignore")
     # urlsplit instead of urlparse: a ";" in the path is part of the path, not the start of URL parameters
     result = urlsplit(uri)
-    uri = result.path
-    params = dict(parse_qsl(result.query))
+    uri = result.path.encode()
+    # percent-decode to bytes: parse_qsl() on bytes input fails for decoded values outside ASCII
+    params = {k.encode("latin-1"): v.encode("latin-1") for k, v in parse_qsl(result.query, encoding="latin-1")}
     return HttpRequest(method=method, body=body, headers=headers, uri=uri, params=params)
 
 
